@@ -2,12 +2,28 @@
    from the source (Gen/FromBodyForm.v), and the executable run of the model over several horizons with its event log - what the
    correspondence compares with the calls telingo makes on clingo's backend. *)
 From Coq Require Import List Bool Arith ZArith Lia String.
-Require Import GenPrelude TheoryPrelude FromTheory FormPrelude FromBodyForm TEL TheorySem BodyTheoryFull.
+Require Import GenPrelude TheoryPrelude FromTheory DynPrelude FromDynamic FormPrelude FromBodyForm TEL LDL TheorySem BodyTheoryFull.
 Import ListNotations.
 Local Open Scope string_scope.
 Local Open Scope nat_scope.
 Notation bfn := (bf nat).
-Inductive raw := RAtom (a : nat) | RKw (name : string) | ROp1 (op : string) (x : raw) | ROp2 (op : string) (x y : raw) | ROpN (op : string) (n : nat) (y : raw).
+(* path expressions of &del as written: an atom (test, then step), &true (step), ? atom / ? constant (test), unary * and binary + ;; *)
+Inductive rpath := PAtom (a : nat) | PTrue | PCheckA (a : nat) | PCheckC (b : bool) | POp1 (op : string) (p : rpath) | POp2 (op : string) (p q : rpath).
+Inductive raw := RAtom (a : nat) | RKw (name : string) | ROp1 (op : string) (x : raw) | ROp2 (op : string) (x y : raw) | ROpN (op : string) (n : nat) (y : raw)
+             | RDel (op : string) (p : rpath) (x : raw).                  (* rho .>? phi / rho .>* phi *)
+(* create_path over the REGENERATED operator tables of paths *)
+Fixpoint pbuild (p : rpath) : option (LDL.path nat) :=
+  match p with
+  | PAtom a => if path_atom_is_test_then_step_gen then Some (Seq nat (Test nat (TAtom nat a)) (Skip nat)) else None
+  | PTrue => Some (Skip nat)
+  | PCheckA a => match path_unary_gen "?" with Some PKCheck => Some (Test nat (TAtom nat a)) | _ => None end
+  | PCheckC b => match path_unary_gen "?" with Some PKCheck => Some (Test nat (TConst nat b)) | _ => None end
+  | POp1 op q => match path_unary_gen op, pbuild q with Some PKStar, Some x => Some (Star nat x) | _, _ => None end
+  | POp2 op q r => match path_binary_gen op, pbuild q, pbuild r with
+                   | Some PKChoice, Some x, Some y => Some (Choice nat x y)
+                   | Some PKSeq, Some x, Some y => Some (Seq nat x y)
+                   | _, _, _ => None end
+  end.
 Section Build.
 Variable ini fin : nat.                      (* atom ids standing for __initial / __final *)
 Fixpoint den (e : fexp) (L R : bfn) (n : nat) : option bfn :=
@@ -42,6 +58,10 @@ Fixpoint build (r : raw) : option bfn :=
   | ROp1 op x => match build x, create_formula_gen op 1 with Some bx, Some (_, e) => den e (Cst nat false) bx 0 | _, _ => None end
   | ROp2 op x y => match build x, build y, create_formula_gen op 2 with Some bx, Some by_, Some (_, e) => den e bx by_ 0 | _, _, _ => None end
   | ROpN op n y => match build y, create_formula_gen op 2 with Some by_, Some (_, e) => den e (Cst nat false) by_ n | _, _ => None end
+  | RDel op p x => match del_modality_gen op, pbuild p, build x with
+                   | Some MDia, Some q, Some bx => Some (Dia nat q bx)
+                   | Some MBox, Some q, Some bx => Some (Box nat q bx)
+                   | _, _, _ => None end
   end.
 End Build.
 (* the executable run: one call of Theory.translate per horizon, with the events it adds to the log and the pending list it leaves *)
